@@ -414,3 +414,72 @@ theorem deleteBytes_rejects (B : Nat) (size offset : Int) (s : FS)
     exact ⟨_, rfl, rfl, by simp [mutCount, Op.mutates]⟩
 
 end Mutagen
+
+namespace Mutagen
+
+/-- fault-free `resize_bytes` as an existence statement with the resulting bytes -/
+theorem resizeBytes_clean (B : Nat) (hB : 0 < B) (old new offset : Nat) (s : FS)
+    (ho : offset + old ≤ s.data.length) :
+    ∃ s' gap, resizeBytes B old new offset Env.clean s = (.ok (), s') ∧ gap.length = new - old ∧
+      s'.data = s.data.take offset ++ (s.data.drop offset).take (min old new) ++ gap
+                  ++ s.data.drop (offset + old) := by
+  unfold resizeBytes
+  have h0 : ¬ ((old : Int) < 0 ∨ (new : Int) < 0 ∨ (offset : Int) < 0) := by omega
+  simp only [h0, ↓reduceIte]
+  by_cases h1 : (new : Int) < (old : Int)
+  · simp only [h1, ↓reduceIte]
+    have e1 : (old : Int) - (new : Int) = ((old - new : Nat) : Int) := by omega
+    have e2 : (offset : Int) + (new : Int) = ((offset + new : Nat) : Int) := by omega
+    rw [e1, e2]
+    obtain ⟨s', hr, hd⟩ := deleteBytes_clean B hB (old - new) (offset + new) s (by omega)
+    refine ⟨s', [], hr, by simp; omega, ?_⟩
+    rw [hd, show offset + new + (old - new) = offset + old by omega, show min old new = new by omega]
+    simp only [List.append_nil, List.append_assoc]
+    rw [← List.append_assoc, ← List.take_add]
+  · by_cases h2 : (new : Int) > (old : Int)
+    · simp only [h1, h2, ↓reduceIte]
+      have e1 : (new : Int) - (old : Int) = ((new - old : Nat) : Int) := by omega
+      have e2 : (offset : Int) + (old : Int) = ((offset + old : Nat) : Int) := by omega
+      rw [e1, e2]
+      obtain ⟨s', hr, hd⟩ := insertBytes_clean B hB (new - old) (offset + old) s ho
+      refine ⟨s', readAt (s.data ++ zeros (new - old)) (offset + old) (new - old), hr,
+        by apply length_readAt; simp; omega, ?_⟩
+      rw [hd, show min old new = old by omega, ← List.take_add]
+    · simp only [h1, h2, ↓reduceIte, pure_run]
+      have : new = old := by omega
+      subst this
+      refine ⟨s, [], rfl, by simp, ?_⟩
+      simp only [Nat.min_self, List.append_nil]
+      rw [← List.take_add, List.take_append_drop]
+
+theorem writeAt_mid (A M Z new : Bytes) (h : M.length = new.length) :
+    writeAt (A ++ M ++ Z) A.length new = A ++ new ++ Z := by
+  unfold writeAt
+  rw [List.append_assoc A M Z, List.take_left' rfl]
+  congr 1
+  rw [← List.append_assoc, show A.length + new.length = (A ++ M).length by simp [h], List.drop_left' rfl]
+
+/-- `resize_bytes; seek; write`: the region `[off, off+old)` is replaced by `new`, the bytes
+before and after it are untouched -/
+theorem replaceRegion_clean (B : Nat) (hB : 0 < B) (off old : Nat) (new : Bytes) (s : FS)
+    (ho : off + old ≤ s.data.length) :
+    ∃ s', replaceRegion B off old new Env.clean s = (.ok (), s') ∧
+      s'.data = s.data.take off ++ new ++ s.data.drop (off + old) := by
+  unfold replaceRegion
+  obtain ⟨s1, gap, hr, hg, hd⟩ := resizeBytes_clean B hB old new.length off s ho
+  simp only [bind_run, hr, fseek_clean, fwrite_clean]
+  refine ⟨_, rfl, ?_⟩
+  show writeData s1.data off new = _
+  have hlen : off + new.length ≤ s1.data.length := by
+    rw [hd]; simp only [List.length_append, List.length_take, List.length_drop, hg]; omega
+  rw [writeData_inside _ _ _ (by omega), hd]
+  have hto : (s.data.take off).length = off := by simp [List.length_take]; omega
+  have hmid : ((s.data.drop off).take (min old new.length) ++ gap).length = new.length := by
+    simp only [List.length_append, List.length_take, List.length_drop, hg]; omega
+  have := writeAt_mid (s.data.take off) ((s.data.drop off).take (min old new.length) ++ gap)
+    (s.data.drop (off + old)) new hmid
+  rw [hto] at this
+  rw [← this]
+  simp only [List.append_assoc]
+
+end Mutagen
